@@ -11,6 +11,8 @@ sys.path.insert(0, HERE)
 
 NOT_BUILT = "monitor not built (yet) in this session; the property is decidable by this family, see DESIGN.md section 5"
 REASONS = {}
+# properties whose check is calibrated on the unchanged tree (maintained by hand)
+CLAIMED = [l.strip() for l in open(os.path.join(HERE, "claimed.txt")) if l.strip() and not l.startswith("#")]
 
 def main():
     props = [json.loads(l) for l in open(os.path.join(HERE, "properties.jsonl"))]
@@ -21,7 +23,7 @@ def main():
         mod = None
         if os.path.exists(path):
             mod = importlib.import_module("vf.props." + pid.lower())
-        if mod is None or not getattr(mod, "CLAIMED", True):
+        if mod is None or pid not in CLAIMED:
             na.append({"property_id": pid, "reason": getattr(mod, "NOT_CLAIMED_REASON", REASONS.get(pid, NOT_BUILT))})
             continue
         c = {
